@@ -238,7 +238,9 @@ func (l *leader) checkConfigAction(t *task, config Config, status *replicationSt
 }
 
 func (l *leader) canChangeConfig() bool {
-	return l.configs.IsCommitted() && !l.transfer.inProgress()
+	// a leader may change the configuration only after it has committed an
+	// entry of its own term (the pending actions of a new leader included)
+	return l.configs.IsCommitted() && !l.transfer.inProgress() && l.commitIndex >= l.startIndex
 }
 
 func (l *leader) onWaitForStableConfig(t waitForStableConfig) {
